@@ -631,8 +631,11 @@ void mode_unit(std::ifstream& in, json const& header, verif::NdjsonWriter& w)
             }
             auto proto = std::make_shared<oi::UnitProto>(std::move(inp));
             oi::InputBuilder::Options opts;
+            opts.tol = Tolerance<>::from_default();
             oi::InputBuilder make_input{std::move(opts)};
             OrangeInput oinp = make_input(*proto);
+            if (!oinp.tol)
+                oinp.tol = Tolerance<>::from_default();
             auto const& unit = std::get<UnitInput>(oinp.universes.at(0));
             // per volume (by label v<i>): the bbox handed to the BIH and the zone's boxes
             json vols = json::array();
